@@ -56,6 +56,9 @@ LINES = [
     ("longopen", PAD + "y{n} = g({n},|72|SEQ{n}"),
     ("longopen80", PAD + "y{n} = g({n},|72| + q{n} + r{n},"),
     ("longstmt80", PAD + "t{n} = {n}|72| + q{n} + r{n}"),
+    # a statement label in front of a line that carries a sequence field (and goes on at the next line)
+    ("longlabelopen", " {n}0   y{n} = g({n},|72|SEQ{n}"),
+    ("longlabel", " {n}1   u{n} = {n}|72|SEQ{n}"),
     ("cpp", "#define X{n}"),
     ("inlinec", PAD + "x{n} = {n} ! c{n}"),
     ("inlined", PAD + "x{n} = {n} !! d{n}"),
